@@ -534,7 +534,39 @@ func (p *Producer) opGasTransfer() *transaction.Transaction {
 		emit.AppCallNoArgs(w.BinWriter, p.GasH, "transfer", 15)
 		return p.Tx(kind, []neotest.Signer{u.S}, w.Bytes(), -1)
 	}
+	if p.R.Intn(12) == 0 {
+		return p.Call("gas-transfer-boundary-amount", []neotest.Signer{u.S}, p.GasH, "transfer", u.Hash(), to, p.boundaryAmount(), nil)
+	}
 	return p.Call("gas-transfer", []neotest.Signer{u.S}, p.GasH, "transfer", u.Hash(), to, amt, nil)
+}
+
+// boundaryAmount returns an amount at a width boundary of the integer types
+// token code converts through (int64, uint64, 2^255), or a negative one. A
+// transfer of it cannot succeed (nobody holds that much), it must fail or
+// fault without moving anything.
+func (p *Producer) boundaryAmount() *big.Int {
+	one := big.NewInt(1)
+	pow := func(k uint) *big.Int { return new(big.Int).Lsh(one, k) }
+	switch p.R.Intn(9) {
+	case 0:
+		return new(big.Int).Sub(pow(63), one)
+	case 1:
+		return pow(63)
+	case 2:
+		return new(big.Int).Add(pow(63), one)
+	case 3:
+		return new(big.Int).Sub(pow(64), one)
+	case 4:
+		return pow(64)
+	case 5:
+		return new(big.Int).Sub(pow(255), one)
+	case 6:
+		return big.NewInt(-1)
+	case 7:
+		return new(big.Int).Neg(pow(63))
+	default:
+		return pow(31 + uint(p.R.Intn(3)))
+	}
 }
 
 // amount returns a varied amount in [0, max]: zero, one, round and odd
@@ -574,6 +606,9 @@ func (p *Producer) opNeoTransfer() *transaction.Transaction {
 	}
 	if p.R.Intn(10) == 0 {
 		return p.Call("neo-transfer-stranger", []neotest.Signer{u.S}, p.NeoH, "transfer", u.Hash(), util.Uint160{byte(p.R.Intn(3)), 0xdd}, int64(1+p.R.Intn(10)), nil)
+	}
+	if p.R.Intn(12) == 0 {
+		return p.Call("neo-transfer-boundary-amount", []neotest.Signer{u.S}, p.NeoH, "transfer", u.Hash(), to.Hash(), p.boundaryAmount(), nil)
 	}
 	return p.Call("neo-transfer", []neotest.Signer{u.S}, p.NeoH, "transfer", u.Hash(), to.Hash(), amt, nil)
 }
